@@ -1791,6 +1791,8 @@ pub fn target_names_family() -> Vec<Prog> {
     "prototype", "toString", "valueOf", "length", "hasOwnProperty", "name", "call", "apply", "bind",
     "local", "param", "func", "result", "loop", "block", "br", "i32", "ref", "struct", "array", "memory", "table", "global", "elem", "data", "start",
     "init", "main", "_t1", "_t0", "_this", "_builtin", "tmp", "v0",
+    // member names of the built-in classes
+    "panic", "println", "fromInt", "toInt", "concat", "push", "pop", "reserve", "capacity", "eq", "empty", "withCapacity", "compare", "hash",
   ];
   // only names that are lower-case identifiers of the language and not keywords of it
   let samlang_keywords = [
@@ -1806,7 +1808,7 @@ pub fn target_names_family() -> Vec<Prog> {
     }
     let n = name;
     let text = format!(
-      "class Rec(val {n}: int, val other: int) {{\n  function {n}Twice(k: int): int = k * 2\n}}\nclass Meth(val q: int) {{\n  method {n}(k: int): int = this.q + k\n}}\nclass Stat {{\n  function {n}(k: int, j: int): int = if k <= j {{ k - j }} else {{ 1 + Stat.{n}(k - 1, j) }}\n}}\nclass Main {{\n  function deep({n}: int, acc: int): int = if {n} <= 0 {{ acc }} else {{ 1 + Main.deep({n} - 1, acc) }}\n  function tail({n}: int, acc: int): int = if {n} <= 0 {{ acc }} else {{ Main.tail({n} - 1, acc + {n}) }}\n  function locals(k: int): int = {{\n    let {n} = k + 1;\n    let f = ({n}2: int) -> {n}2 + {n};\n    let g = (x: int) -> {{ let {n}3 = x * 2; {n}3 + {n} }};\n    f(1) + g(2)\n  }}\n  function lam(k: int): int = {{\n    let h = ({n}: int) -> {n} * 3;\n    h(k)\n  }}\n  function pat(r: Rec): int = {{\n    let {{ {n}, other }} = r;\n    {n} * 10 + other\n  }}\n  function main(): unit = {{\n    let k = \"3\".toInt();\n    Process.println(Str.fromInt(Main.deep(k, 100)));\n    Process.println(Str.fromInt(Main.tail(k, 0)));\n    Process.println(Str.fromInt(Main.locals(k)));\n    Process.println(Str.fromInt(Main.lam(k)));\n    Process.println(Str.fromInt(Main.pat(Rec.init(k, 4))));\n    Process.println(Str.fromInt(Meth.init(k).{n}(5) + Rec.{n}Twice(k) + Rec.init(k, 4).{n} + Stat.{n}(9, k)))\n  }}\n}}\n"
+      "class Rec(val {n}: int, val other: int) {{\n  function {n}Twice(k: int): int = k * 2\n}}\nclass Meth(val q: int) {{\n  method {n}(k: int): int = this.q + k\n}}\nclass Stat {{\n  function {n}(k: int, j: int): int = if k <= j {{ k - j }} else {{ 1 + Stat.{n}(k - 1, j) + Stat.{n}(k - 2, j) }}\n}}\nclass Main {{\n  function deep({n}: int, acc: int): int = if {n} <= 0 {{ acc }} else {{ 1 + Main.deep({n} - 1, acc) }}\n  function tail({n}: int, acc: int): int = if {n} <= 0 {{ acc }} else {{ Main.tail({n} - 1, acc + {n}) }}\n  function locals(k: int): int = {{\n    let {n} = k + 1;\n    let f = ({n}2: int) -> {n}2 + {n};\n    let g = (x: int) -> {{ let {n}3 = x * 2; {n}3 + {n} }};\n    f(1) + g(2)\n  }}\n  function lam(k: int): int = {{\n    let h = ({n}: int) -> {n} * 3;\n    h(k)\n  }}\n  function pat(r: Rec): int = {{\n    let {{ {n}, other }} = r;\n    {n} * 10 + other\n  }}\n  function main(): unit = {{\n    let k = \"3\".toInt();\n    Process.println(Str.fromInt(Main.deep(k, 100)));\n    Process.println(Str.fromInt(Main.tail(k, 0)));\n    Process.println(Str.fromInt(Main.locals(k)));\n    Process.println(Str.fromInt(Main.lam(k)));\n    Process.println(Str.fromInt(Main.pat(Rec.init(k, 4))));\n    Process.println(Str.fromInt(Meth.init(k).{n}(5) + Rec.{n}Twice(k) + Rec.init(k, 4).{n} + Stat.{n}(9, k)))\n  }}\n}}\n"
     );
     out.push(Prog { family: "target-names", shape: format!("identifier `{n}`"), name: format!("target name {n}"), text });
   }
